@@ -113,7 +113,7 @@ class _FakeServer(object):
     shutdown_signal = False
 
 
-def dev_server_environ(raw_path, method, query='', absolute_form=False, headers=None):
+def dev_server_environ(raw_path, method, query='', absolute_form=False, headers=None, safe='/+'):
     """The environ clastic's own development server builds (clastic/_werkzeug_serving.py, its request handler's
     make_environ) for the request line `<method> <percent-encoded path>[?query] HTTP/1.1`."""
     import io
@@ -131,7 +131,7 @@ def dev_server_environ(raw_path, method, query='', absolute_form=False, headers=
     for k, v in (headers or {}).items():
         del hd.headers[k]
         hd.headers[k] = v
-    target = quote(raw_path.encode('utf-8'), safe='/+') + ('?' + query if query else '')
+    target = quote(raw_path.encode('utf-8'), safe=safe) + ('?' + query if query else '')
     hd.path = ('http://localhost' + target) if absolute_form else target
     env = hd.make_environ()
     env.setdefault('wsgi.errors', io.StringIO())
